@@ -4,7 +4,10 @@ Frame contracts (E3, vc.pyframe) on the real source, all paths:
    for every public entry point f in API/__init__.py and every caller-facing parameter p of f
        assigns(f) ∩ reachable(p) = ∅        "no object reachable from the argument passed for p is ever mutated"
    computed inter-procedurally over API/__init__.py, API/_InternalApi.py, API/_sdmx_utils.py, files/parser/*.py,
-   files/sdmx_handler.py, duckdb_transpiler/io/*.py (may-alias, flow-sensitive re-binding, shallow-copy tracking).
+   files/sdmx_handler.py, duckdb_transpiler/io/*.py, closed under "package function that receives (part of) a caller
+   object" (may-alias, flow-sensitive re-binding; three alias depths: the object itself / a fresh container around the
+   caller's elements / anything reachable; a callee's mutation is classified top vs deep so that a fresh wrapper
+   `g({k: d[k]})` around the caller's DataFrame does not hide a mutation of the frame).
 A refuted clause is replayed natively: the entry point is called (API.run / semantic_analysis through the mechanical
 below-the-parser extraction of vc.pipeline) with deep snapshots of every argument taken before and compared after,
 on a pool of valid and invalid calls; the run-time monitor also runs on the unchanged tree (bounded tier) so that a
@@ -40,11 +43,67 @@ ENTRY = {
 }
 
 
+def build_analysis() -> Tuple[FrameAnalysis, List[str], List[str]]:
+    """Frame analysis over MODULES closed under "a function of the package that receives (part of) a caller object":
+    a callee imported from a module outside the set is located (re-exports followed) and its module is added, until no
+    such callee is left.  Returns (analysis, modules added, callees left to the external assumption)."""
+    import ast as pyast
+    from vc.pysrc import module_ast
+
+    def locate(module: str, level: int, name: str, rel: str, depth: int = 0) -> Optional[str]:
+        if level > 0:
+            base = Path(rel).parent
+            for _ in range(level - 1):
+                base = base.parent
+            parts = list(base.parts) + (module.split(".") if module else [])
+        else:
+            parts = module.split(".")[1:]
+        for cand in ("/".join(parts) + ".py", "/".join(parts + ["__init__.py"])):
+            if not parts and cand.startswith(".py"):
+                continue
+            cand = cand.lstrip("/")
+            if not (core.SRC / cand).exists():
+                continue
+            tree = module_ast(cand)
+            for st in tree.body:
+                if isinstance(st, (pyast.FunctionDef, pyast.AsyncFunctionDef)) and st.name == name:
+                    return cand
+                if isinstance(st, pyast.ImportFrom) and depth < 4:
+                    for a in st.names:
+                        if (a.asname or a.name) == name:
+                            return locate(st.module or "", st.level, a.name, cand, depth + 1)
+            return None
+        return None
+
+    mods = [m for m in MODULES if (core.SRC / m).exists()]
+    added: List[str] = []
+    fa = FrameAnalysis(mods)
+    for _ in range(8):
+        new = []
+        for module, level, name, rel in sorted(fa.unresolved_internal):
+            where = locate(module, level, name, rel)
+            if where is not None and where not in mods and where not in new:
+                new.append(where)
+        if not new:
+            break
+        mods += new
+        added += new
+        fa = FrameAnalysis(mods)
+    left = sorted({f"{module}.{name}" for module, level, name, rel in fa.unresolved_internal
+                   if locate(module, level, name, rel) is None})
+    return fa, added, left
+
+
 def snapshot(x: Any) -> Any:
     import pandas as pd
     if isinstance(x, pd.DataFrame):
-        return ("df", list(x.columns), [str(t) for t in x.dtypes], x.astype(object).where(x.notna(), None).values.tolist(),
-                list(x.index))
+        return ("df", [repr(c) for c in x.columns], repr(x.columns.name), [str(t) for t in x.dtypes],
+                [[repr(v) for v in row] for row in x.to_numpy(dtype=object).tolist()],
+                [repr(v) for v in x.index.tolist()], type(x.index).__name__, [repr(n) for n in x.index.names],
+                x.shape, repr(dict(x.attrs)), repr(x.flags.allows_duplicate_labels))
+    if hasattr(x, "data") and isinstance(getattr(x, "data", None), pd.DataFrame):       # pysdmx PandasDataset
+        return ("dataset-object", type(x).__name__, snapshot(x.data), repr(getattr(x, "structure", None)),
+                repr(getattr(x, "attributes", None)))
     if isinstance(x, dict):
         return ("dict", [(k, snapshot(v)) for k, v in x.items()])
     if isinstance(x, (list, tuple)):
@@ -99,7 +158,90 @@ def call_pool() -> List[Tuple[str, str, Dict[str, Any]]]:
     pool.append(("run", "valid-end-to-end", {"ast": script, "data_structures": plain,
                                               "datapoints": {"DS_1": good[["Id_1", "Me_1", "Me_2"]].copy(), "DS_2": d2.copy()},
                                               "scalar_values": {"sc_1": 3}, "return_only_persistent": False}))
+    # unusual but legal frames: every one goes through run() and validate_dataset()
+    for label, ds, df in unusual_frames():
+        st = P.structures([ds])
+        name = ds["name"]
+        is_num = any(c["type"] == "Number" for c in ds["DataStructure"])
+        expr = P.binop(P.var(name), "+", P.var(name)) if is_num else P.var(name)
+        pool.append(("run", label, {"ast": P.start([P.assign("DS_r", expr, True)]), "data_structures": copy.deepcopy(st),
+                                    "datapoints": {name: df.copy()}}))
+        pool.append(("validate_dataset", label, {"data_structures": copy.deepcopy(st), "datapoints": {name: df.copy()}}))
     return pool
+
+
+def unusual_frames() -> List[Tuple[str, Dict[str, Any], Any]]:
+    """(label, dataset structure, frame): index / dtype / label shapes a caller may legally hand over."""
+    import numpy as np
+    import pandas as pd
+    d1 = P.dataset_structure("DS_1", measures=("Me_1", "Me_2"))
+    d3 = P.dataset_structure("DS_3", ids=("Id_1", "Id_2"))
+    d3["DataStructure"][1]["type"] = "String"
+    d4 = P.dataset_structure("DS_4", me_type="String")
+    base1 = pd.DataFrame({"Id_1": [1, 2, 3], "Me_1": [1.5, 2.5, None], "Me_2": [3.0, 4.0, 5.0]})
+    base3 = pd.DataFrame({"Id_1": [1, 2, 3], "Id_2": ["A", "B", "C"], "Me_1": [1.5, 2.5, 3.5]})
+    base4 = pd.DataFrame({"Id_1": [1, 2, 3], "Me_1": ["a", "b", "a"]})
+    out: List[Tuple[str, Dict[str, Any], Any]] = []
+    out.append(("index-named-as-identifier", d1, base1.set_index("Id_1")))
+    out.append(("multiindex-named-as-identifiers", d3, base3.set_index(["Id_1", "Id_2"])))
+    out.append(("multiindex-one-level-identifier", d3, base3.assign(k=[7, 8, 9]).set_index(["k", "Id_2"])))
+    out.append(("index-named-as-measure", d1, base1.dropna().set_index("Me_2")))
+    out.append(("index-named-unrelated", d1, base1.rename_axis("row")))
+    out.append(("shuffled-index", d1, base1.iloc[[2, 0, 1]]))
+    out.append(("string-index", d1, base1.set_axis(["x", "y", "z"], axis=0)))
+    named_cols = base1.copy()
+    named_cols.columns.name = "component"
+    out.append(("named-columns-axis", d1, named_cols))
+    out.append(("bom-column-name", d1, base1.rename(columns={"Id_1": "﻿Id_1"})))
+    out.append(("extra-column", d1, base1.assign(Extra=["p", "q", "r"])))
+    out.append(("categorical-measure", d4, base4.assign(Me_1=base4["Me_1"].astype("category"))))
+    out.append(("categorical-identifier", d3, base3.assign(Id_2=base3["Id_2"].astype("category"))))
+    out.append(("object-column-with-None", d4, pd.DataFrame({"Id_1": [1, 2, 3],
+                                                             "Me_1": pd.Series(["a", None, "c"], dtype=object)})))
+    out.append(("object-numeric-with-None", d1, pd.DataFrame({"Id_1": pd.Series([1, 2, 3], dtype=object),
+                                                              "Me_1": pd.Series([1.5, None, 2], dtype=object),
+                                                              "Me_2": pd.Series([np.nan, 1.0, 2.0])})))
+    with_attrs = base1.copy()
+    with_attrs.attrs["source"] = "caller"
+    out.append(("frame-with-attrs", d1, with_attrs))
+    out.append(("empty-frame", d1, base1.iloc[0:0]))
+    return out
+
+
+def run_sdmx_cases() -> Dict[Tuple[str, str], Tuple[str, List[str]]]:
+    """run_sdmx() natively: the two parser-dependent callees are replaced on the harness side (`_extract_input_datasets`
+    by the input names of the hand-built AST, `run` by the mechanically extracted run-from-AST); the body of run_sdmx,
+    to_vtl_json, the mapping code and everything below run() are the code of the tree."""
+    import importlib
+    import pandas as pd
+    from pysdmx.io.pd import PandasDataset
+    from pysdmx.model import Component, Components, Concept, DataType, Role
+    from pysdmx.model.dataflow import Schema
+    core.boot(full=True)
+    api = importlib.import_module("vtlengine.API")
+    run_ast = P.api_from_ast("run")
+    g = api.run_sdmx.__globals__
+    saved = {k: g.get(k) for k in ("run", "_extract_input_datasets")}
+    script = P.start([P.assign("DS_r", P.binop(P.var("DS_1"), "+", P.var("DS_1")), True)])
+    comps = Components([
+        Component(id="Id_1", required=True, role=Role.DIMENSION, concept=Concept(id="Id_1"), local_dtype=DataType.INTEGER),
+        Component(id="Me_1", required=False, role=Role.MEASURE, concept=Concept(id="Me_1"), local_dtype=DataType.DOUBLE)])
+    res: Dict[Tuple[str, str], Tuple[str, List[str]]] = {}
+    try:
+        g["_extract_input_datasets"] = lambda s: ["DS_1"]
+        g["run"] = lambda script, **kw: run_ast(script, **kw)
+        frames = {"valid": pd.DataFrame({"Id_1": [1, 2], "Me_1": [1.0, 2.0]}),
+                  "index-named-as-identifier": pd.DataFrame({"Me_1": [1.0, 2.0]}, index=pd.Index([1, 2], name="Id_1")),
+                  "duplicate-keys": pd.DataFrame({"Id_1": [1, 1], "Me_1": [1.0, 2.0]})}
+        for label, df in frames.items():
+            schema = Schema(context="datastructure", agency="MD", id="DS_1", components=comps, version="1.0")
+            res[("run_sdmx", label)] = monitored(api.run_sdmx, {"script": script,
+                                                                "datasets": [PandasDataset(structure=schema, data=df)],
+                                                                "mappings": None})
+    finally:
+        for k, v in saved.items():
+            g[k] = v
+    return res
 
 
 def run_url_case() -> Tuple[str, List[str]]:
@@ -133,8 +275,10 @@ def main() -> None:  # noqa: C901
                 "replayed natively with deep argument snapshots; the same snapshot monitor runs over a pool of valid and "
                 "invalid calls as a bounded tier", min_obligations=10)
     import os
-    mods = [m for m in MODULES if (core.SRC / m).exists()]
-    fa = FrameAnalysis(mods)
+    fa, added_modules, left_external = build_analysis()
+    if not fa.converged:
+        o = chk.ob("pyframe::fixpoint", "vc/pyframe.py", "the inter-procedural frame fixpoint converged")
+        o.status, o.detail = UNDECIDED, f"no fixpoint after {fa.rounds} rounds: the write frames may be incomplete"
     pool_results: Dict[Tuple[str, str], Tuple[str, List[str]]] = {}
     core.boot(full=True)
     import importlib
@@ -152,6 +296,10 @@ def main() -> None:  # noqa: C901
         pool_results[("run", "url-datapoints")] = run_url_case()
     except Exception as e:  # noqa: BLE001
         pool_results[("run", "url-datapoints")] = (f"harness error {type(e).__name__}: {e}", [])
+    try:
+        pool_results.update(run_sdmx_cases())
+    except Exception as e:  # noqa: BLE001
+        pool_results[("run_sdmx", "harness")] = (f"harness error {type(e).__name__}: {e}", [])
 
     for entry, params in ENTRY.items():
         info = fa.fns.get(("API/__init__.py", entry))
@@ -207,13 +355,22 @@ def main() -> None:  # noqa: C901
     chk.extra["functions_with_nonempty_write_frame"] = {f"{i.rel}:{i.qualname}": {p: r[0] for p, r in i.mutates.items()}
                                                         for i in fa.fns.values() if i.mutates}
     chk.extra["extraction_drops"] = P.EXTRACTION_DROPS
+    chk.extra["modules_analysed"] = fa.modules
+    chk.extra["modules_added_by_closure"] = added_modules
+    chk.extra["fixpoint_rounds"] = fa.rounds
+    chk.extra["package_callees_receiving_caller_objects_not_followed"] = left_external
+    chk.extra["external_callees_receiving_caller_objects"] = sorted(fa.assumed_externals)
     chk.assume("external callees (pandas non-inplace methods, pysdmx, json, jsonschema, pathlib, copy.deepcopy) do not mutate "
-               "their arguments; only the mutator methods listed in vc/pyframe.py and inplace=True do")
+               "their arguments; only the mutator methods / functions listed in vc/pyframe.py and any call with an "
+               "`inplace=` keyword that is not literally False/None do; constructors of package classes "
+               "(Dataset, Component, Scalar, SQLTranspiler, exceptions ...) keep references but do not mutate (listed in "
+               "the evidence)")
+    chk.assume("run_sdmx native replay: `_extract_input_datasets` and `run` (both need the compiled parser) are replaced by "
+               "the input names of the hand-built AST and by the mechanically extracted run-from-AST")
     chk.assume("objects reach analysed functions only through parameters (no mutation through module globals holding "
                "caller objects); dynamic dispatch inside InterpreterAnalyzer / SQLTranspiler is not followed - their inputs "
                "are deep copies or freshly loaded structures (checked for run(): copy.deepcopy(input_datasets))")
-    chk.assume("prettify / generate_sdmx / run_sdmx need the compiled parser or SDMX files at run time: frame clause only, "
-               "no native replay")
+    chk.assume("prettify / generate_sdmx need the compiled parser at run time: frame clause only, no native replay")
     chk.finish()
 
 
